@@ -712,6 +712,39 @@ def check_stats_cli(res):
 NUMBER_PARTS = 16
 
 
+def long_token_forms(part, nparts):
+    """One lexical item of 2^k - 6 .. 2^k + 6 bytes for 2^k in {256, 1024, 4096, 8192, 16384, 32768} (every length in the
+    band): line comments, blank runs, names, numbers, long strings / comments with the closer straddling the mark, and
+    quoted strings in which each kind of escape ends exactly at / straddles the mark - alone and followed by code."""
+    out = []
+    marks = [256, 1024, 4096, 8192, 16384, 32768]
+    escs = [b'\\n', b'\\065', b'\\x41', b'\\\\', b'\\"', b'\\\n', b'\\\r\n', b'\\z \n ']
+    k = 0
+    for m in marks:
+        for d in range(-6, 7):
+            n = m + d
+            k += 1
+            if k % nparts != part:
+                continue
+            out.append(b'x=1 --' + b'c d ' * (n // 4) + b'e' * (n % 4) + b'\ny=2\n')
+            out.append(b'x=1 //' + b'(' * n + b'\ny=2\n')
+            out.append(b'x=1' + b' ' * n + b'y=2\n')
+            out.append(b'x=1' + b' \t' * (n // 2) + b'\ny=2\n')
+            out.append(b'n' * n + b'=1 y=2\n')
+            if n < 2000:
+                out.append(b'x=0.' + b'5' * n + b' y=2\n')
+            out.append(b'x=[[' + b'a]' * (n // 2) + b']] y=2\n')
+            out.append(b'x=[==[' + b'=' * (d % 2) + b'a' * n + b']==] y=2\n')
+            out.append(b'--[[' + b'c\r\n' * (n // 3) + b']] y=2\n')
+            out.append(b'--[=[' + b']' * n + b']=] y=2\n')
+            for e in escs:
+                # the escape ends exactly n bytes after the opening quote
+                pad = n - len(e)
+                if pad >= 0:
+                    out.append(b's="' + b'a' * pad + e + b'b" y=2\n')
+    return out
+
+
 def shards(tier, seed):
     L = BOUNDS[tier]['char_len']
     total = count_strings(L, len(ALPHABET))
@@ -726,6 +759,7 @@ def shards(tier, seed):
     items += [('numbers', tier, k) for k in range(NUMBER_PARTS)]
     items += [('cart', kind, tier, k) for kind in ('p8', 'png') for k in range(CART_PARTS)]
     items += [('count', k, 4) for k in range(4)]
+    items += [('longtok', k, 8) for k in range(8)]
     return items
 
 
@@ -760,6 +794,12 @@ def run_shard(item):
         for s in escapes_forms():
             compare(s, res, 'esc')
         res.sample({'src': escapes_forms()[40]})
+    elif kind == 'longtok':
+        forms = long_token_forms(item[1], item[2])
+        for src in forms:
+            compare(src, res, 'longtok')
+        if item[1] == 0:
+            res.sample({'family': 'longtok', 'form': 'a -- comment of 4090..4102 bytes followed by code', 'forms': len(forms)})
     elif kind == 'count':
         check_counts(item[1], item[2], res)
         if item[1] == 0:
